@@ -19,7 +19,7 @@ THEOREMS = ['PyDBML.C05.build_refs_in_range', 'PyDBML.C05.locateTable_in_range',
             'PyDBML.C02.ColForm.buildRef_ok', 'PyDBML.C02.ColForm.buildRefB_ok', 'PyDBML.C02.ColForm.foldlM_refsB',
             'PyDBML.C02.ColForm.inline_rendered', 'PyDBML.C02.ColForm.irefs_eq', 'PyDBML.C02.foldlM_groupStep', 'PyDBML.C02.flags_document_roundtrip_partial']
 MODULES = ['PyDBMLProofs.Props.C05', 'PyDBMLProofs.Props.C05Link', 'PyDBMLProofs.Props.C02FormRefs', 'PyDBMLProofs.Props.C02Group',
-           'PyDBMLProofs.Props.C02Inline', 'PyDBMLProofs.Props.C02Project', 'PyDBMLProofs.Props.C02EnumNote', 'PyDBMLProofs.Props.C02Document']
+           'PyDBMLProofs.Props.C02Inline', 'PyDBMLProofs.Props.C02Project', 'PyDBMLProofs.Props.C02EnumNote', 'PyDBMLProofs.Props.C02TableNote', 'PyDBMLProofs.Props.C02Document']
 
 
 def isin(x, lst):
